@@ -167,6 +167,10 @@ def evWrites (evs : List REv) : List Placement := evs.filterMap fun | .wr p => s
 abbrev Key := Nat × Int × Int
 def key (p : Placement) : Key := (p.id, p.col, p.row)
 
+/-- The placement id `KittyImage.Draw` computes from the window's origin, with the regenerated shift (`none`: the
+    expression is not of the form `uint(col)<<N | uint(row)`; for `0 ≤ col, row`). -/
+def pidOf (col row : Nat) : Option Nat := kittyPidShift.map fun n => (col <<< n) ||| row
+
 /-- The graphics commands vaxis emits (`sixel`: sixel data written at the cursor — not a kitty command, the kitty
     tables ignore it; `unknown`: from an unrecognised statement). -/
 inductive Cmd | transmit (id enc : Nat) | place (p : Placement) | delete (k : Key) | sixel (p : Placement) | unknown
@@ -261,6 +265,13 @@ def World.step : World → WOp → World :=
   World.stepWith renderOrder renderShape Placements.samePlacement kittyResizeBody kittyWriteBody
 
 def World.run (w : World) (ops : List WOp) : World := ops.foldl World.step w
+
+/-- What the application has drawn since the last `Clear` (from the op list alone): the frame a render shows. -/
+def drawnSinceClear (cur : List Placement) : List WOp → List Placement
+  | [] => cur
+  | .draw p :: r => drawnSinceClear (cur ++ [p]) r
+  | .clear :: r => drawnSinceClear [] r
+  | _ :: r => drawnSinceClear cur r
 
 /-- All graphics commands a history emits, in order (the concatenation of what its renders write). -/
 def World.trace (w : World) : List WOp → List Cmd
